@@ -73,6 +73,7 @@ func ruleC20(c *Check) {
 	c.panicInventory(fs, r)
 	c.mutateWhileIterating()
 	c.priceNonEmpty(fs)
+	c.coinsSubSites(fs)
 	// the pricing indexed while a request is built exists: requests are built only for the providers the filter admitted
 	// (providers with a stored binding, whose pricing is stored with it), never for the consumer's raw list
 	c.newBatchRules("C20.3", map[string]bool{"list-vs-amount": true})
@@ -402,8 +403,53 @@ func (c *Check) justifyIndex(f *Func, pa *Path, i int, ev *Event) (bool, string)
 		}
 		return false
 	}
+	// constant arithmetic over a counter with a known start (the value after the iterations walked)
+	var foldInt func(t *Term) (int64, bool)
+	foldInt = func(t *Term) (int64, bool) {
+		t = stripConv(t)
+		if v, ok := intConst(t); ok {
+			return v, true
+		}
+		if (t.Op == "+" || t.Op == "-") && len(t.A) == 2 {
+			a, ok1 := foldInt(t.A[0])
+			b, ok2 := foldInt(t.A[1])
+			if ok1 && ok2 {
+				if t.Op == "+" {
+					return a + b, true
+				}
+				return a - b, true
+			}
+		}
+		return 0, false
+	}
+	// a comparison on the path that puts a constant below the length: k < len(x), ¬(len(x) < k+1)
+	belowLen := func(k int64) bool {
+		if k == 0 && lenAtLeast(1) {
+			return true
+		}
+		for _, fa := range facts {
+			if fa.T.Op != "<" || len(fa.T.A) != 2 {
+				continue
+			}
+			l, r := stripConv(fa.T.A[0]), stripConv(fa.T.A[1])
+			if !fa.Neg && r.Op == "len" && len(r.A) == 1 && stripConv(r.A[0]).Eq(stripConv(x)) {
+				if cst, ok := foldInt(l); ok && cst >= k {
+					return true
+				}
+			}
+			if fa.Neg && l.Op == "len" && len(l.A) == 1 && stripConv(l.A[0]).Eq(stripConv(x)) {
+				if cst, ok := foldInt(r); ok && cst > k {
+					return true
+				}
+			}
+		}
+		return false
+	}
 	if t.Op == "idx" {
 		idx := stripConv(t.A[1])
+		if k, ok := foldInt(idx); ok && k >= 0 && belowLen(k) {
+			return true, fmt.Sprintf("index %d is below the length by a comparison on the path", k)
+		}
 		// range index over the same operand (or over a value of the same length)
 		if idx.Op == "key" && len(idx.A) == 1 && (idx.A[0].Eq(x) || true) {
 			if idx.A[0].Eq(x) {
@@ -561,8 +607,11 @@ func (c *Check) mutateWhileIterating() {
 			}
 			n++
 			cur := e.Key.ContainsOp("github.com/tendermint/tm-db.Iterator.Key") || e.Key.ContainsOp("github.com/tendermint/tm-db.Iterator.Value")
-			c.req(cur && e.Op == "Delete", "C20.4", unitConstruct(f, e.Op+"-while-iterating:"+e.Family), e.Pos,
-				"a record of the family under iteration is only deleted, at the iterator's current position: "+shortTerm(e.Key))
+			// the record under the cursor may also be overwritten in place (its key rebuilt from the cursor's own key):
+			// no key enters or leaves the range being iterated
+			overwrite := e.Op == "Set" && e.Key.ContainsOp("github.com/tendermint/tm-db.Iterator.Key") && !e.Key.ContainsOp("github.com/tendermint/tm-db.Iterator.Value")
+			c.req(cur && (e.Op == "Delete" || overwrite), "C20.4", unitConstruct(f, e.Op+"-while-iterating:"+e.Family), e.Pos,
+				"a record of the family under iteration is only deleted or overwritten, at the iterator's current position: "+shortTerm(e.Key))
 		}
 	}
 	c.req(n >= 1, "C20.4", "mutation-during-iteration-sites", token.NoPos, fmt.Sprintf("%d sites mutate the family they iterate", n))
@@ -685,4 +734,135 @@ func (c *Check) keyHelperOnly(f *Func, depth int) bool {
 		}
 	}
 	return n > 0
+}
+
+// coinsSubSites: sdk.Coins.Sub panics when the result would be negative. In reachable code it may only take a
+// provider's earned fees from the total of that provider's owner (the total is the sum of the owner's providers'
+// earnings — the C13 invariant — so the difference is never negative); every other use needs SafeSub.
+func (c *Check) coinsSubSites(fs []*Func) {
+	gOwner := c.getterByFamily("0x04")
+	// the family a term was read from: result #0 of a read-only keeper function all of whose store reads are of one family
+	famOf := func(t *Term) (string, *Term) {
+		b, ok := stripConv(t).Match("(res 0 $CALL)")
+		if !ok {
+			return "", nil
+		}
+		call := b["$CALL"]
+		g := c.P.FuncNamed(call.Op)
+		if g == nil || !g.isHandWritten() || g.Body == nil || len(call.A) == 0 {
+			return "", nil
+		}
+		fam := ""
+		for _, e := range c.P.SummaryOf(g).Effs {
+			if e.Kind == "emit" {
+				continue
+			}
+			if e.Kind != "store" || (e.Op != "Get" && e.Op != "Iter" && e.Op != "Has") {
+				return "", nil
+			}
+			if fam != "" && fam != e.Family {
+				return "", nil
+			}
+			fam = e.Family
+		}
+		return fam, call.A[len(call.A)-1]
+	}
+	type site struct {
+		f     *Func
+		a, b  *Term
+		facts FactSet
+		pos   token.Pos
+	}
+	judge := func(st site) (bool, string) {
+		fa, owner := famOf(st.a)
+		fb, prov := famOf(st.b)
+		if fa != "0x19" || fb != "0x18" {
+			return false, "operands are not (the owner's total, a provider's earnings)"
+		}
+		if gOwner == nil {
+			return false, "owner getter not found"
+		}
+		own := mk("res", atom("0"), mk(gOwner.Name, prov))
+		if st.facts.Holds(mk("sdk.AccAddress.Equals", owner, own), true) || st.facts.Holds(mk("sdk.AccAddress.Equals", own, owner), true) {
+			return true, ""
+		}
+		return false, "the path does not establish that the owner whose total is reduced owns the provider"
+	}
+	bare := func(t *Term) bool {
+		t = stripConv(t)
+		return t.Op == "" && strings.HasPrefix(t.At, "P") && !t.IsAt("Precv")
+	}
+	for _, f := range fs {
+		if c.P.inlineTarget(f) {
+			continue // walked in place in its caller
+		}
+		seen := map[token.Pos]bool{}
+		for _, pa := range c.P.PathsOf(f) {
+			for i, ev := range pa.Events {
+				if ev.Kind != EvCall || ev.CI.name != "sdk.Coins.Sub" || ev.CI.recv == nil || len(ev.CI.args) != 1 {
+					continue
+				}
+				sites := []site{{f, stripConv(ev.CI.recv), stripConv(stripSpread(ev.CI.args[0])), pa.FactsBefore(i), ev.Pos}}
+				// operands that are the function's own parameters are judged on what its callers pass
+				for depth := 0; depth < 3; depth++ {
+					var next []site
+					lifted := false
+					for _, st := range sites {
+						if !(bare(st.a) || bare(st.b)) || st.f.Obj == nil {
+							next = append(next, st)
+							continue
+						}
+						n := 0
+						for _, h := range c.handFuncs("keeper", "service") {
+							for _, pb := range c.P.PathsOf(h) {
+								for j, e2 := range pb.Events {
+									if e2.Kind != EvCall || e2.CI.fn != st.f {
+										continue
+									}
+									m := map[string]*Term{}
+									for k, a := range e2.CI.args {
+										m[fmt.Sprintf("P%d", k)] = a
+									}
+									fsx := pb.FactsBefore(j)
+									for _, fa := range st.facts {
+										for _, nf := range fa.SubstAll(m) {
+											fsx.Add(nf)
+										}
+									}
+									next = append(next, site{h, stripConv(st.a.Subst(m)), stripConv(st.b.Subst(m)), fsx, st.pos})
+									n++
+								}
+							}
+						}
+						if n == 0 {
+							next = append(next, st)
+						} else {
+							lifted = true
+						}
+					}
+					sites = next
+					if !lifted {
+						break
+					}
+				}
+				ok, why := true, ""
+				var a0, b0 *Term
+				for _, st := range sites {
+					o, w := judge(st)
+					if a0 == nil || !o {
+						a0, b0 = st.a, st.b
+					}
+					if !o {
+						ok, why = false, w
+					}
+				}
+				if seen[ev.Pos] && ok {
+					continue
+				}
+				seen[ev.Pos] = true
+				c.req(ok, "C20.3", unitConstruct(f, "coins-sub"), ev.Pos,
+					"Coins.Sub (panics on a negative result) takes a provider's earnings from the total of the provider's owner: "+shortTerm(a0)+" − "+shortTerm(b0)+condStr(why != "", " — "+why))
+			}
+		}
+	}
 }
